@@ -286,13 +286,20 @@ def crash_key(text):
     return "crash/%s/%s" % (kind, name), summary
 
 
+def _scratch():
+    d = os.path.join(B.BUILD, "fuzzwork", "artifacts_%d" % os.getpid())
+    os.makedirs(d, exist_ok=True)
+    return d
+
+
 def run_one(target, path, skip=(), timeout=25, msan=False):
     """Runs one input through the target. Returns (crashed, key, summary, tail)."""
     exe = os.path.join(_bindir(), target + (".msan" if msan else ""))
     if msan:
         cmd = [exe, path]
     else:
-        cmd = [exe, path, "-close_fd_mask=3", "-timeout=%d" % timeout, "-rss_limit_mb=2048", "-detect_leaks=0"]
+        # a crashing input is the file we hold already: the copy libFuzzer dumps goes to the scratch directory, not to the working directory
+        cmd = [exe, path, "-close_fd_mask=3", "-timeout=%d" % timeout, "-rss_limit_mb=2048", "-detect_leaks=0", "-artifact_prefix=" + _scratch() + "/"]
     try:
         r = subprocess.run(cmd, env=_env(skip), stdout=subprocess.PIPE, stderr=subprocess.PIPE, timeout=timeout * 2 + 30)
         err = r.stderr.decode(errors="replace")
@@ -479,7 +486,7 @@ def corpus_acceptance(target, corpus, skip):
     env["FZ_ACCLOG"] = acc
     files = [os.path.join(corpus, f) for f in sorted(os.listdir(corpus))]
     try:
-        subprocess.run([exe, corpus, "-runs=0", "-close_fd_mask=3", "-timeout=25", "-detect_leaks=0", "-rss_limit_mb=2048", "-verbosity=0",
+        subprocess.run([exe, corpus, "-runs=0", "-close_fd_mask=3", "-timeout=25", "-detect_leaks=0", "-rss_limit_mb=2048", "-verbosity=0", "-artifact_prefix=" + _scratch() + "/",
                         "-max_len=%d" % TARGETS[target]["max_len"]],
                        env=env, stdout=subprocess.DEVNULL, stderr=subprocess.DEVNULL, timeout=900)
     except subprocess.TimeoutExpired:
